@@ -4,8 +4,8 @@
  (4) the workspace still type-checks. Writes <seed-dir>/confirm.json. Never touches /repo's working tree."""
 import json, os, subprocess, sys, re
 seed = os.path.abspath(sys.argv[1])
-WT = '/tmp/wt-me'
-env = dict(os.environ, CARGO_TARGET_DIR='/tmp/wt-me-target', CARGO_NET_OFFLINE='true')
+WT = os.environ.get('PVX_WT', '/tmp/wt-me')
+env = dict(os.environ, CARGO_TARGET_DIR=os.environ.get('PVX_WT', '/tmp/wt-me') + '-target', CARGO_NET_OFFLINE='true')
 def sh(cmd, **kw):
     r = subprocess.run(cmd, shell=True, cwd=WT, env=env, stdout=subprocess.PIPE, stderr=subprocess.STDOUT, text=True, **kw)
     return r.returncode, r.stdout
